@@ -236,7 +236,7 @@ func newHostRunner(c *sexp.S) (*hostRunner, error) {
 	dr.AddCommand("failing", func(a []*variable.Value) <-chan error {
 		h.log = append(h.log, "cmd:failing("+obs.Values(a)+")")
 		ch := make(chan error, 1)
-		ch <- fmt.Errorf("failing")
+		ch <- hostError(len(a))
 		return ch
 	})
 	dr.AddCommand("ctl", func(a []*variable.Value) <-chan error {
@@ -245,6 +245,25 @@ func newHostRunner(c *sexp.S) (*hostRunner, error) {
 		return h.ctl
 	})
 	return h, nil
+}
+
+// errors of the host come in every shape an error value can have: a pointer, a string, a struct
+type strErr string
+
+func (e strErr) Error() string { return string(e) }
+
+type structErr struct{ code int }
+
+func (e structErr) Error() string { return fmt.Sprintf("host error %d", e.code) }
+
+func hostError(k int) error {
+	switch k % 3 {
+	case 0:
+		return fmt.Errorf("failing")
+	case 1:
+		return strErr("failing")
+	}
+	return structErr{k}
 }
 
 func newRunner(storer variable.Storer, seed string, readers []*strings.Reader) (dr *ysgo.DialogueRunner, err error) {
@@ -497,7 +516,7 @@ func Run(c *sexp.S, out *Out) {
 			if a[1].Atom == "ok" {
 				r.ctl <- nil
 			} else {
-				r.ctl <- fmt.Errorf("ctl failed")
+				r.ctl <- hostError(len(r.log) + r.ends)
 			}
 			r.ctl = nil
 			out.Put("DONE")
